@@ -362,7 +362,12 @@ class Doc:
                 return False
             return UNKNOWN
         if d < w / 2 - band:
-            # well inside the band around the outline: inside unless near an open end with butt cap
+            # within half the width of the outline.  Covered for certain only where a perpendicular foot falls on a
+            # segment; in the wedge outside a corner the cover depends on the join (round: the disc, bevel / clipped miter:
+            # only part of it)
+            if ctx.get("stroke-linejoin", "miter") != "round" and not geom.strip_inside(cs, ux, uy, w / 2 - band):
+                return UNKNOWN
+            # inside unless near an open end with butt cap
             for pts, closed in cs:
                 if not closed:
                     for endp in (pts[0], pts[-1]):
